@@ -143,6 +143,7 @@ func runC20(p *core.Program, r *core.Report) {
 	r.Rule("C20.same", "same-type comparison: 0 iff equal, sign reverses on swap, Equals <=> CompareTo == 0 (all orderings)", 14)
 	r.Rule("C20.sizes", "container Equals/CompareTo reach their element loop only after the two sizes compared equal (a one-sided walk over the receiver's elements cannot see extra elements on the other side)", 6)
 	r.Rule("C20.canon", "comparison of a keyed container walks sorted key sequences and orders the two operands' keys against each other: the result does not depend on which operand is the receiver or on insertion order", 4)
+	r.Rule("C20.cache", "what a keyed container remembers for its comparison (a sorted key list) is reset by every method that changes its table", 2)
 	r.Rule("C20.fresh", "every value the factory hands out for decoding is freshly allocated: a decoded value is not overwritten by the next decode (it stays equal to what was encoded)", 20)
 	checkFactoryFresh(p, r, "C20.fresh", "lang/value", "CreateValue")
 	r.Rule("C20.width", "a payload written without a length and read back with a fixed one has that width wherever it is stored: a value equals its own decoded encoding", 1)
@@ -155,6 +156,7 @@ func runC20(p *core.Program, r *core.Report) {
 		c20Same(p, r, t)
 		c20Sizes(p, r, t)
 		c20Canon(p, r, t)
+		c20Cache(p, r, t)
 	}
 	c20Helpers(p, r)
 }
